@@ -199,6 +199,8 @@ def gen_case(rnd, tier, index):
         wbgen.add_branch_gadget(rnd, spec)        # IF / CHOOSE / IFERROR over branch cells
     if rnd.random() < 0.05:
         wbgen.add_alias_gadget(rnd, spec)
+    if rnd.random() < 0.06:
+        wbgen.add_nested_array_gadget(rnd, spec)   # array over an intersection over an array
     if rnd.random() < 0.08:
         wbgen.add_compare_gadget(rnd, spec)       # operators over ranges of 1 / TRUE / 0 / FALSE
     cfg = draw_cfg(rnd, spec, tier)
